@@ -21,7 +21,9 @@ VERIF = os.path.dirname(HERE)
 LEAN = os.path.join(VERIF, "lean")
 BUILD = os.path.join(VERIF, "build")
 REPO = os.environ.get("PEPPER_REPO", "/repo")
-EVIDENCE = os.path.join(VERIF, "evidence")
+# evidence describes runs against /repo itself; a run against a scratch copy (mutation experiments, PEPPER_REPO set elsewhere) keeps its
+# evidence apart so that the committed files are never overwritten by it
+EVIDENCE = os.path.join(VERIF, "evidence") if os.path.realpath(REPO) == "/repo" else os.path.join(VERIF, "build", "evidence-scratch")
 REPLAYS = os.path.join(VERIF, "replays")
 CORPUS = os.path.join(VERIF, "corpus")
 PEPPERD = os.path.join(LEAN, ".lake", "build", "bin", "pepperd")
